@@ -80,6 +80,8 @@ def start_coverage(pid):
         files = [f for f in anchored_files(pid) if os.path.exists(f)]
         if not files:
             return None
+        import warnings
+        warnings.filterwarnings("ignore", category=coverage.exceptions.CoverageWarning)
         c = coverage.Coverage(branch=True, include=files, data_file=None, config_file=False)
         c.start()
         return c
